@@ -212,9 +212,10 @@ func genRun(c *common.Corpus, seed uint64, cold bool, syncHeavy bool) (*simrt.Ru
 			p.Kind = "seq"
 		}
 	}
-	if cold && (p.Kind == "seq" || p.Kind == "sync") {
+	if cold && (p.Kind == "seq" || p.Kind == "sync" || (p.Kind == "walk" && p.P < 0.01) || (p.Kind == "pct" && p.Depth < 3)) {
+		// the first run of a process always overlaps its first calls
 		p.Kind = "walk"
-		p.P = 0.03
+		p.P = []float64{0.01, 0.03, 0.1}[r.Intn(3)]
 	}
 	p.PoolMode = []string{"lifo", "lifo", "lifo", "fifo", "random", "random"}[r.Intn(6)]
 	p.PoolEvict = []float64{0, 0, 0.05, 0.15, 0.3}[r.Intn(5)]
